@@ -4,6 +4,7 @@ R11.1 spans index the user's text: span-producing parsers are handed the caller'
 R11.2 flag plumbing: header key <-> LexFlags field <-> default <-> RegexBuilder setter <-> builder setter agree by name
 R11.4 no integer `as` cast in the library crates narrows (or changes signedness): numeric settings (size_limit, dfa_size_limit,
       nest_limit) travel header(u64) <-> field(usize/u32); a lossy cast puts a value in force that was not the one given
+R11.10 the inclusive/exclusive kind of declared start states is the constant belonging to the declaration pattern that matched
 R11.9 pieces cut by Regex::split on a one-character separator pass a non-empty filter (names are separated by one OR MORE blanks)
 R11.8 every escape form the regex engine interprets (table from its syntax documentation) is matched by RE_LEX_ESC_LITERAL, the
       lex parser's own list of escapes it must pass through unchanged
@@ -561,8 +562,55 @@ def r119(facts, res):
     res.floor(R, 'Regex::split calls in the lex parser', n, 1)
 
 
+def r1110(facts, res):
+    """"the declared start states with their inclusive/exclusive kind": the kind handed to declare_start_states is decided by WHICH
+    declaration pattern matched - a constant per arm: exclusive exactly on the paths on which the EXCLUSIVE pattern matched,
+    inclusive exactly on those on which the INCLUSIVE pattern matched.  Re-deriving it from the text (a case-sensitive
+    `starts_with('x')`) disagrees with the patterns, which accept both cases."""
+    R = 'R11.10'
+    from lrstep import is_call, has_call
+    bs = [b for b in facts.lib_bodies(['lrlex']) if b.name == 'parse_declaration' and b.kind != 'closure' and b.path.startswith('lrlex::parser::')]
+    if len(bs) != 1:
+        res.lost(R, 'lrlex parse_declaration not found')
+        return
+    b = bs[0]
+    ps = Walker(b, facts, max_paths=4096).run(0)
+    rows = []
+    bad = []
+    for p in ps:
+        ds = [e for e in p.events if e[0] == 'call' and e[2] and e[2]['name'] == 'declare_start_states']
+        if not ds:
+            continue
+        K = ds[0][3][1]
+        m = {}
+        for c, v in p.conds:
+            if is_call(c, 'is_match') and c[2]:
+                stt = [x for x in subterms(c[2][0]) if isinstance(x, tuple) and x and x[0] == 'static']
+                if stt:
+                    m['EXCL' if 'EXCLUSIVE' in stt[0][1] else 'INCL' if 'INCLUSIVE' in stt[0][1] else stt[0][1]] = v
+        rows.append((K, m))
+        if not (is_const(K) and K[1] in (0, 1)):
+            bad.append('the kind passed to declare_start_states is computed (%s), not fixed by the pattern that matched' % fmt_term(K)[:60])
+            continue
+        want = 1 if m.get('EXCL') == 1 else 0 if m.get('INCL') == 1 else None
+        if want is None:
+            bad.append('declare_start_states is called on a path on which neither declaration pattern matched')
+        elif K[1] != want:
+            bad.append('the %s pattern matched but the states are declared %s' % ('EXCLUSIVE' if want else 'INCLUSIVE', 'exclusive' if K[1] else 'inclusive'))
+    kinds = {K[1] for K, m in rows if is_const(K)}
+    if not rows:
+        res.lost(R, 'no call of declare_start_states found in parse_declaration')
+    elif bad:
+        res.bad(R, 'start-state-kind', loc_of(b), '; '.join(sorted(set(bad))[:2]), {'function': b.path})
+    elif kinds != {0, 1}:
+        res.bad(R, 'start-state-kind', loc_of(b), 'only %s start states can be declared' % ('exclusive' if kinds == {1} else 'inclusive'))
+    else:
+        res.ok(R, 'start-state-kind', loc_of(b), 'exclusive exactly when the EXCLUSIVE pattern matched, inclusive exactly when the INCLUSIVE one did (%d call paths)' % len(rows))
+
+
 def run(facts, res):
     r114(facts, res)
+    r1110(facts, res)
     r119(facts, res)
     r118(facts, res)
     r117(facts, res)
